@@ -911,13 +911,110 @@ def oracle_reuse(scn, res):
     return v
 
 
-ORACLES.update(tls=oracle_tls, reuse=oracle_reuse)
+def oracle_endpoints(scn, res):
+    """C06: each transfer that reaches its data phase uses exactly one data connection, which arrives at the port the
+    peer announced (passive) / which the peer could open to the endpoint the client advertised, an address of the
+    client's control connection (active)"""
+    v = []
+    for ci, (e, a) in enumerate(zip(scn["exp"], res["calls"])):
+        if a["out"] in ("blocked", "CRASH"):
+            break
+        key = scn["xfer_map"].get(ci)
+        if not key or not e.get("moves_data") and not e.get("cancelled"):
+            continue
+        si, ri = key
+        log = res["peer"][si]
+        recs = [d for d in log["data"] if d.get("ri") == ri]
+        if len(recs) != 1:
+            v.append((ci, "endpoint/not-exactly-one-data-connection", "%d data connection records for the transfer" % len(recs)))
+            continue
+        d = recs[0]
+        active = scn["sessions"][si]["reactions"][ri]["data"]["mode"] == "active"
+        if not d.get("arrived"):
+            if not a["out"].startswith("throw") or e.get("moves_data"):
+                v.append((ci, "endpoint/data-connection-did-not-reach-the-negotiated-endpoint",
+                          "announced %s, peer record %s" % (log.get("announced_ports"), {k: d[k] for k in d if k in ("connect_error", "connected_to")})))
+            continue
+        if active:
+            adv = (log.get("advertised") or [None])
+            ep = d.get("connected_to")
+            if ep is None or ep not in adv:
+                v.append((ci, "endpoint/active-connection-not-to-advertised-endpoint", "%s vs %s" % (ep, adv)))
+            elif log.get("client_addr") and ep[0] != log["client_addr"]:
+                v.append((ci, "endpoint/advertised-address-is-not-the-control-connection-local-address",
+                          "%s advertised, control connection comes from %s" % (ep[0], log["client_addr"])))
+        else:
+            if d.get("arrived_at") not in (log.get("announced_ports") or []):
+                v.append((ci, "endpoint/passive-connection-at-another-port", str(d.get("arrived_at"))))
+    # every data socket the peer accepted belongs to some transfer: no extra connections
+    for si, log in enumerate(res["peer"]):
+        extra = [d for d in log["data"] if d.get("arrived") and d.get("ri") not in [k[1] for k in scn["xfer_map"].values() if k[0] == si]]
+        if extra:
+            v.append((-1, "endpoint/unexpected-data-connection", str(len(extra))))
+    return v
+
+
+def fam_dispatch(rng, n, dist):
+    """all eight combinations passive/active x RFC 2428 on/off x IPv4/IPv6, mode switches inside a session, malformed
+    and out-of-range 227 / 229 replies, announced ports nobody listens on, reconnects to another address"""
+    out = []
+    bad227 = [b"227 Entering Passive Mode (127,0,0,1,256,0)", b"227 ok (127,0,0,1,1)", b"227 no parens 127,0,0,1,4,5",
+              b"227 (127,0,0,1,4,65536)", b"227 (1,2,3,4,5,6,7)", b"227 ()"]
+    bad229 = [b"229 ok (|||65536|)", b"229 ok (|||6446)", b"229 ok (1234567|)", b"229 ok", b"229 ok (||||)", b"229 ok (|||-1|)"]
+    for i in range(n):
+        mode, rfc = ALL_METHODS[i % 4]
+        ip6 = (i % 8) >= 4
+        b = S.Builder(rng, mode, rfc, type="I", ip6=ip6)
+        b.connect(login=(b"u", b"p"))
+        for k in range(rng.randrange(1, 5)):
+            r = rng.random()
+            if r < 0.15:
+                b.mode, b.rfc = rng.choice(ALL_METHODS)
+                if ip6 and b.mode == "P":
+                    b.rfc = True
+                b.add_call(("M", b.mode)); b.add_call(("Y", b.rfc))
+                dist.add("dispatch:switch-method")
+            elif r < 0.3 and b.mode == "P":
+                # a malformed / out-of-range reply to the set-up command: an error, never a connection
+                text = rng.choice(bad229 if b.rfc else bad227)
+                rp = P.R(int(text[:3]), text + b" [m%d]" % (b.mark + 1)); b.mark += 1
+                b.cur.append(P.reaction([rp]))
+                b.add_call(("D", b"f", None, None), cmds=[b.setup_cmd()], replies=[rp], throws=True)
+                dist.add("dispatch:malformed-%s" % ("229" if b.rfc else "227"))
+                b.disconnect(False)
+                b.connect(login=(b"u", b"p"))
+            elif r < 0.4 and b.mode == "P":
+                b.transfer("D", b"f", payload_segs=[b"x"], listen="dead")
+                dist.add("dispatch:dead-port")
+                b.disconnect(False)
+                b.connect(login=(b"u", b"p"))
+            else:
+                add_transfer(b, rng, dist, kind=rng.choice(["D", "U", "F"]))
+                dist.add("dispatch:%s%s:%s" % (b.mode, "-rfc2428" if b.rfc else "", "ipv6" if ip6 else "ipv4"))
+        if rng.random() < 0.4:
+            # end the session (421 or QUIT) and carry on against ANOTHER address
+            if rng.random() < 0.5:
+                b.simple(b"NOOP", None, 421)
+                b.disconnect(False)
+            else:
+                b.disconnect(True)
+            b.connect(login=(b"u", b"p"))
+            add_transfer(b, rng, dist, kind=rng.choice(["D", "U", "F"]))
+            dist.add("dispatch:reconnect-other-address")
+        if b.connected:
+            b.disconnect(True)
+        out.append(b.scenario())
+    return out
+
+
+ORACLES.update(tls=oracle_tls, reuse=oracle_reuse, endpoints=oracle_endpoints)
 
 FAMILIES = dict(mixed=lambda rng, n, dist, th: gen_mixed(rng, "quick", dist, n), observers=lambda r, n, d, th: fam_observers(r, n, d),
                 abor=lambda r, n, d, th: fam_abor(r, n, d), downloads=fam_downloads, uploads=fam_uploads,
                 refusals=lambda r, n, d, th: fam_refusals(r, n, d), cancel=lambda r, n, d, th: fam_cancel(r, n, d),
                 args=lambda r, n, d, th: fam_args(r, n, d), tls=lambda r, n, d, th: fam_tls(r, n, d),
-                reconnect=lambda r, n, d, th: fam_reconnect(r, n, d), reuse=lambda r, n, d, th: fam_reuse(r, n, d))
+                reconnect=lambda r, n, d, th: fam_reconnect(r, n, d), reuse=lambda r, n, d, th: fam_reuse(r, n, d),
+                dispatch=lambda r, n, d, th: fam_dispatch(r, n, d))
 
 # ---------------------------------------------------------------------------------------------- the checks
 PROPS = {
@@ -934,6 +1031,7 @@ PROPS = {
     "C11": dict(fam=[("tls", 6), ("reconnect", 1)], proj=["out", "state", "wire"], oracles=["tls", "commands"], n=(90, 500)),
     "C13": dict(fam=[("reconnect", 6), ("tls", 1)], proj=["out", "state", "held", "wire"], oracles=["state", "sockets", "lockstep", "tls"], n=(120, 600)),
     "C18": dict(fam=[("reuse", 1)], proj=["out", "wire"], oracles=["reuse"], n=(60, 300)),
+    "C06": dict(fam=[("dispatch", 5), ("tls", 1)], proj=["out", "wire", "held"], oracles=["endpoints", "commands"], n=(160, 800)),
 }
 
 
@@ -953,10 +1051,22 @@ def generate(prop, rng, tier, dist):
 def run(prop, tier, seed):
     rep = vlib.Report(prop, tier, seed)
     rng = random.Random(seed * 7919 + int(prop[1:]))
+    check_into(rep, prop, tier, rng)
+    return rep.finish()
+
+
+def check_into(rep, prop, tier, rng, module=None, merge=False):
     spec = PROPS[prop]
-    module = "Properties_" + prop
+    module = module or ("Properties_" + prop)
     if os.path.exists(os.path.join(vlib.COQ, module + ".v")):
+        prev = dict(rep.coverage)
         vlib.proof_step(rep, module)
+        if merge and prev.get("obligations"):
+            for k in ("obligations", "discharged"):
+                rep.coverage[k] = rep.coverage.get(k, 0) + prev.get(k, 0)
+            rep.coverage["theorems"] = prev.get("theorems", []) + rep.coverage.get("theorems", [])
+            rep.coverage["print_assumptions"] = dict(prev.get("print_assumptions", {}), **rep.coverage.get("print_assumptions", {}))
+            rep.coverage["checker_cmd"] = prev.get("checker_cmd", "") + " ; " + rep.coverage.get("checker_cmd", "")
     else:
         rep.broken("coq:%s.v missing" % module, "no theorem file for this property yet")
     from props import leaf
@@ -968,7 +1078,7 @@ def run(prop, tier, seed):
     except vlib.HarnessBuildError as e:
         rep.broken("correspondence:%s:harness-does-not-build" % prop, str(e)[-1500:])
         rep.coverage.update(evaluations=0, distinct_nontrivial=0, samples=[], rule="harness did not build")
-        return rep.finish()
+        return
     work = os.path.join(vlib.BUILD, "work", prop)
     results = P.run_scenarios(scns, exe, drv, work, tier)
     ndis, examples, nontriv = 0, [], 0
@@ -994,17 +1104,21 @@ def run(prop, tier, seed):
     if ndis:
         rep.broken("correspondence:%s:ftp::client-vs-extracted-protocol-model" % prop,
                    json.dumps(dict(scenarios_disagreeing=ndis, first=examples), default=str)[:6000])
+    prevc = dict(rep.coverage) if merge else {}
     rep.coverage.update(
-        evaluations=len(scns), distinct_nontrivial=nontriv, correspondence_disagreements=ndis, distribution=dist.d,
+        evaluations=len(scns) + prevc.get("evaluations", 0), distinct_nontrivial=nontriv + prevc.get("distinct_nontrivial", 0),
+        correspondence_disagreements=ndis + prevc.get("correspondence_disagreements", 0),
+        distribution=dict(prevc.get("distribution", {}), **dist.d), protocol_histories=len(scns),
         api_calls=sum(len(s["calls"]) for s in scns),
         rule="seeded-random histories of API calls with scripted peer reactions covering the reply classes at every branching "
              "step; each history is run through the real ftp::client over loopback against bin/peer.py and through the "
              "extracted Coq model with the observed block sizes; compared per call on the projections %s; oracles %s; "
              "non-trivial = history of at least three calls that ran to its end" % (spec["proj"], spec["oracles"]),
-        samples=[dict(calls=[repr(c)[:100] for c in scns[i]["calls"]][:8], outcomes=[c["out"][:60] for c in results[i]["calls"]][:8])
+        samples=prevc.get("samples", [])[:3] + [dict(calls=[repr(c)[:100] for c in scns[i]["calls"]][:8], outcomes=[c["out"][:60] for c in results[i]["calls"]][:8])
                  for i in range(min(3, len(scns)))])
-    rep.assumptions = ["kernel TCP: in-order exactly-once delivery; a small send arrives as written", "the scripted peer realises the script"]
-    return rep.finish()
+    if merge and prevc.get("rule"):
+        rep.coverage["rule"] = prevc["rule"] + " || " + rep.coverage["rule"]
+    rep.assumptions = list(rep.assumptions) + ["kernel TCP: in-order exactly-once delivery; a small send arrives as written", "the scripted peer realises the script"]
 
 
 def dump_scn(scn):
